@@ -1642,6 +1642,47 @@ where
         &mut self.cells
     }
 
+    /// Verification hook (fault injection): raw mutable access to the cell storage.
+    /// Does not touch UUID maps, neighbors, incidence or the generation counter.
+    #[cfg(feature = "verif-hooks")]
+    #[doc(hidden)]
+    pub fn verif_cells_mut(&mut self) -> &mut StorageMap<CellKey, Cell<T, U, V, D>> {
+        &mut self.cells
+    }
+
+    /// Verification hook (fault injection): raw mutable access to the vertex storage.
+    #[cfg(feature = "verif-hooks")]
+    #[doc(hidden)]
+    pub fn verif_vertices_mut(&mut self) -> &mut StorageMap<VertexKey, Vertex<T, U, D>> {
+        &mut self.vertices
+    }
+
+    /// Verification hook (fault injection): raw mutable access to the UUID→vertex-key map.
+    #[cfg(feature = "verif-hooks")]
+    #[doc(hidden)]
+    pub fn verif_uuid_to_vertex_key_mut(&mut self) -> &mut UuidToVertexKeyMap {
+        &mut self.uuid_to_vertex_key
+    }
+
+    /// Verification hook (fault injection): raw mutable access to the UUID→cell-key map.
+    #[cfg(feature = "verif-hooks")]
+    #[doc(hidden)]
+    pub fn verif_uuid_to_cell_key_mut(&mut self) -> &mut UuidToCellKeyMap {
+        &mut self.uuid_to_cell_key
+    }
+
+    /// Verification hook (fault injection): insert a cell over the given vertex keys with a
+    /// fresh UUID, without any validation, neighbor wiring or incidence update.
+    #[cfg(feature = "verif-hooks")]
+    #[doc(hidden)]
+    pub fn verif_insert_cell_raw(&mut self, vertices: &[VertexKey]) -> Option<CellKey> {
+        let cell = Cell::new(vertices.to_vec(), None).ok()?;
+        let uuid = cell.uuid();
+        let key = self.cells.insert(cell);
+        self.uuid_to_cell_key.insert(uuid, key);
+        Some(key)
+    }
+
     /// Atomically inserts a vertex and creates the UUID-to-key mapping.
     ///
     /// This method ensures that both the vertex insertion and UUID mapping are
